@@ -394,8 +394,8 @@ Theorem step_inv st l :
   Inv st -> match step st l with Ok st' _ => Inv st' | Stuck _ => True | Panic _ => False end.
 Proof.
   intros HI. destruct l as [k|k|k sz|k|its| |n|]; cbn [step].
-  - destruct (slot_free (fst k) (hs_streams st) && id_free (snd k) (hs_streams st)) eqn:E; [|trivial].
-    apply andb_true_iff in E. destruct E as [E1 E2]. pose proof (slot_free_find k _ E1) as Hnone.
+  - destruct (slot_free (fst k) (hs_streams st)) eqn:E1; [|trivial].
+    pose proof (slot_free_find k _ E1) as Hnone.
     destruct HI as (Hu & Hs & Hf & Ht). unfold Inv; cbn [hs_streams hs_fl hs_codec hs_thr set_streams uniq h_key].
     split; [auto|]. split; [|split; [|exact Ht]].
     + constructor; [|exact Hs]. unfold sok; cbn [h_queue h_buf h_sub h_chg h_drop h_key sumz].
@@ -536,7 +536,7 @@ Lemma other_labels_keep_cleared st l st' o :
   step st l = Ok st' o -> hs_cleared st' = hs_cleared st.
 Proof.
   destruct l as [k|k|k sz|k|its| |n|]; try contradiction; intros _; cbn [step].
-  - destruct (slot_free (fst k) (hs_streams st) && id_free (snd k) (hs_streams st)); [|discriminate].
+  - destruct (slot_free (fst k) (hs_streams st)); [|discriminate].
     intros H; inversion H; reflexivity.
   - unfold remove. destruct (find_h k (hs_streams st)) as [s|]; [|discriminate].
     destruct (h_queue s); [|discriminate]. destruct (h_buf s =? 0); [|discriminate]. intros H; inversion H; reflexivity.
